@@ -77,13 +77,13 @@ Proof.
   destruct (existsb _ toks); reflexivity.
 Qed.
 
-(* ---------- the conditional hop-by-hop loop of createUpstreamRequest ---------- *)
-Definition hop_step (h : hdr) (k : bytes) : hdr := if is_nil (hget h k) then h else hdel h k.
+(* ---------- the hop-by-hop loop of createUpstreamRequest ---------- *)
+Definition hop_step (h : hdr) (k : bytes) : hdr := hdel h k.
 
 Lemma hop_step_lookup h k0 k :
   hlookup (hop_step h k0) k = hlookup h k \/ hlookup (hop_step h k0) k = None.
 Proof.
-  unfold hop_step. destruct (is_nil (hget h k0)); [left; reflexivity|].
+  unfold hop_step.
   rewrite hlookup_hdel. destruct (beq (canon_key k0) k); [right|left]; reflexivity.
 Qed.
 
@@ -93,16 +93,15 @@ Proof.
   apply IH. destruct (hop_step_lookup h k0 k) as [E|E]; congruence.
 Qed.
 
+(* a listed key in canonical form (every entry of hopHeaders is) is gone, whatever its values *)
 Lemma hop_fold_removed L h k0 :
-  In k0 L -> hget h k0 <> [] -> hlookup (fold_left hop_step L h) (canon_key k0) = None.
+  In k0 L -> canon_key k0 = k0 -> hlookup (fold_left hop_step L h) k0 = None.
 Proof.
-  revert h. induction L as [|k1 L IH]; intros h HIn Hne; [destruct HIn|]. simpl.
+  revert h. induction L as [|k1 L IH]; intros h HIn Hc; [destruct HIn|]. simpl.
   destruct HIn as [->|HIn].
-  - apply hop_fold_none. unfold hop_step. destruct (hget h k0) eqn:E; [congruence|]. simpl.
-    rewrite hlookup_hdel, beq_refl. reflexivity.
-  - destruct (hop_step_lookup h k1 (canon_key k0)) as [E|E].
-    + apply IH; [exact HIn|]. rewrite (hget_ext _ h); [exact Hne|exact E].
-    + apply hop_fold_none. exact E.
+  - apply hop_fold_none. unfold hop_step.
+    rewrite hlookup_hdel, Hc, beq_refl. reflexivity.
+  - apply IH; assumption.
 Qed.
 
 Lemma hop_fold_kept L h k :
@@ -110,7 +109,7 @@ Lemma hop_fold_kept L h k :
 Proof.
   revert h. induction L as [|k1 L IH]; intros h H; simpl; [reflexivity|].
   rewrite IH by (intros k0 H0; apply H; right; exact H0).
-  unfold hop_step. destruct (is_nil (hget h k1)); [reflexivity|].
+  unfold hop_step.
   rewrite hlookup_hdel. assert (Hk : canon_key k1 <> k) by (apply H; left; reflexivity).
   apply beq_false_iff in Hk. rewrite Hk. reflexivity.
 Qed.
@@ -138,40 +137,60 @@ Proof.
   assert (E : beq K_XFF k = false) by (apply beq_false_iff; congruence). rewrite E. reflexivity.
 Qed.
 
-Definition first_conn_tokens (h : hdr) : list bytes := conn_tokens (hget h K_CONNECTION).
+(* the tokens the request and response loops delete are the tokens of ALL Connection lines (the spec's notion) *)
+Lemma listed_conn_tokens_all h : listed_conn_tokens h = all_conn_tokens h.
+Proof. unfold listed_conn_tokens, conn_values, all_conn_tokens. destruct (hlookup h K_CONNECTION); reflexivity. Qed.
 
-(* every header named in the FIRST Connection value is removed *)
+Lemma strip_conn_listed_lookup h k :
+  hlookup (strip_conn_listed h) k =
+  if existsb (fun t => beq (canon_key t) k) (all_conn_tokens h) then None else hlookup h k.
+Proof. unfold strip_conn_listed. rewrite hlookup_fold_hdel, listed_conn_tokens_all. reflexivity. Qed.
+
+(* every header named in ANY Connection line is removed *)
 Lemma conn_listed_removed h remote tok :
-  In tok (first_conn_tokens h) -> canon_key tok <> K_XFF ->
+  In tok (all_conn_tokens h) -> canon_key tok <> K_XFF ->
   hlookup (create_upstream_headers remote h) (canon_key tok) = None.
 Proof.
   intros HIn Hx. unfold create_upstream_headers. rewrite add_xff_other by exact Hx.
-  rewrite strip_hop_req_eq. apply hop_fold_none. unfold strip_conn_listed.
-  rewrite hlookup_fold_hdel.
-  assert (E : existsb (fun t => beq (canon_key t) (canon_key tok)) (first_conn_tokens h) = true).
+  rewrite strip_hop_req_eq. apply hop_fold_none.
+  rewrite strip_conn_listed_lookup.
+  assert (E : existsb (fun t => beq (canon_key t) (canon_key tok)) (all_conn_tokens h) = true).
   { apply existsb_exists. exists tok. split; [exact HIn|apply beq_refl]. }
-  unfold first_conn_tokens in E. rewrite E. reflexivity.
+  rewrite E. reflexivity.
 Qed.
 
-(* every hop-by-hop header whose first value is non-empty is removed *)
+(* every hop-by-hop header is removed, whatever its values *)
 Lemma hop_removed h remote k :
-  In k gen_hop_headers -> hget h k <> [] ->
+  In k gen_hop_headers ->
   hlookup (create_upstream_headers remote h) k = None.
 Proof.
-  intros HIn Hne. unfold create_upstream_headers.
+  intros HIn. unfold create_upstream_headers.
   assert (Hx : k <> K_XFF).
   { intros ->. pose proof xff_not_hop as X.
     assert (Y : existsb (beq K_XFF) gen_hop_headers = true)
       by (apply existsb_exists; exists K_XFF; split; [exact HIn|apply beq_refl]).
     congruence. }
   rewrite add_xff_other by exact Hx. rewrite strip_hop_req_eq.
-  pose proof (gen_hop_canon k HIn) as Hc.
-  destruct (hlookup (strip_conn_listed h) k) eqn:E.
-  - rewrite <- Hc. apply hop_fold_removed; [exact HIn|].
-    rewrite (hget_ext _ h); [exact Hne|]. rewrite Hc.
-    unfold strip_conn_listed in *. rewrite hlookup_fold_hdel in *.
-    destruct (existsb _ _); [discriminate|reflexivity].
-  - apply hop_fold_none. exact E.
+  apply hop_fold_removed; [exact HIn|exact (gen_hop_canon k HIn)].
+Qed.
+
+(* ... in the spec's own terms: every header that is hop-by-hop per RFC 7230 / RFC 2616 (spec_hop) or
+   named in any Connection line (is_hop_for) is absent upstream *)
+Lemma spec_hop_in_gen k : mem k spec_hop = true -> In k gen_hop_headers.
+Proof.
+  intros H. unfold mem in H. apply existsb_exists in H. destruct H as [x [Hx E]]. apply beq_eq in E. subst x.
+  assert (G : forallb (fun k => mem k gen_hop_headers) spec_hop = true) by (vm_compute; reflexivity).
+  rewrite forallb_forall in G. specialize (G k Hx). unfold mem in G.
+  apply existsb_exists in G. destruct G as [y [Hy E]]. apply beq_eq in E. subst y. exact Hy.
+Qed.
+
+Lemma is_hop_for_removed h remote k :
+  is_hop_for h k = true -> k <> K_XFF -> hlookup (create_upstream_headers remote h) k = None.
+Proof.
+  intros H Hx. unfold is_hop_for in H. apply orb_true_iff in H. destruct H as [H|H].
+  - apply hop_removed. apply spec_hop_in_gen. exact H.
+  - apply existsb_exists in H. destruct H as [tok [HIn E]]. apply beq_eq in E. subst k.
+    apply conn_listed_removed; assumption.
 Qed.
 
 (* a hop-by-hop header that is absent stays absent *)
@@ -179,20 +198,20 @@ Lemma absent_stays_absent h remote k :
   k <> K_XFF -> hlookup h k = None -> hlookup (create_upstream_headers remote h) k = None.
 Proof.
   intros Hx Hn. unfold create_upstream_headers. rewrite add_xff_other by exact Hx.
-  rewrite strip_hop_req_eq. apply hop_fold_none. unfold strip_conn_listed.
-  rewrite hlookup_fold_hdel. destruct (existsb _ _); [reflexivity|exact Hn].
+  rewrite strip_hop_req_eq. apply hop_fold_none.
+  rewrite strip_conn_listed_lookup. destruct (existsb _ _); [reflexivity|exact Hn].
 Qed.
 
 (* end-to-end headers are preserved *)
 Lemma e2e_preserved h remote k :
   ~ In k gen_hop_headers ->
-  (forall tok, In tok (first_conn_tokens h) -> canon_key tok <> k) ->
+  (forall tok, In tok (all_conn_tokens h) -> canon_key tok <> k) ->
   k <> K_XFF ->
   hlookup (create_upstream_headers remote h) k = hlookup h k.
 Proof.
   intros Hnh Hnc Hx. unfold create_upstream_headers. rewrite add_xff_other by exact Hx.
   rewrite strip_hop_req_eq, hop_fold_kept.
-  - unfold strip_conn_listed. rewrite hlookup_fold_hdel.
+  - rewrite strip_conn_listed_lookup.
     destruct (existsb _ _) eqn:E; [|reflexivity].
     apply existsb_exists in E. destruct E as [tok [H1 H2]]. apply beq_eq in H2.
     exfalso. exact (Hnc tok H1 H2).
@@ -222,14 +241,14 @@ Qed.
 (* ... in the usual situation (X-Forwarded-For not itself declared hop-by-hop by the client) *)
 Lemma xff_folded h remote ip port prior :
   split_host_port remote = Some (ip, port) ->
-  (forall tok, In tok (first_conn_tokens h) -> canon_key tok <> K_XFF) ->
+  (forall tok, In tok (all_conn_tokens h) -> canon_key tok <> K_XFF) ->
   hlookup h K_XFF = Some prior -> prior <> [] ->
   hlookup (create_upstream_headers remote h) K_XFF = Some [join COMMA_SP (prior ++ [ip])].
 Proof.
   intros Hs Hc Hp Hne. rewrite (xff_appended _ _ _ _ Hs).
   assert (E : hlookup (strip_hop_req (strip_conn_listed h)) K_XFF = Some prior).
   { rewrite strip_hop_req_eq, hop_fold_kept.
-    - unfold strip_conn_listed. rewrite hlookup_fold_hdel.
+    - rewrite strip_conn_listed_lookup.
       destruct (existsb _ _) eqn:E; [|exact Hp].
       apply existsb_exists in E. destruct E as [tok [H1 H2]]. apply beq_eq in H2.
       exfalso. exact (Hc tok H1 H2).
@@ -246,7 +265,7 @@ Lemma xff_fresh h remote ip port :
 Proof.
   intros Hs Hp. rewrite (xff_appended _ _ _ _ Hs).
   rewrite strip_hop_req_eq, hop_fold_none; [reflexivity|].
-  unfold strip_conn_listed. rewrite hlookup_fold_hdel. destruct (existsb _ _); [reflexivity|exact Hp].
+  rewrite strip_conn_listed_lookup. destruct (existsb _ _); [reflexivity|exact Hp].
 Qed.
 
 (* ---------- singleJoiningSlash ---------- *)
@@ -341,11 +360,11 @@ Proof.
 Qed.
 
 Lemma apply_rule_lookup e h0 h (r : rule) k :
-  hlookup (apply_rule e (Some h0) h r) k =
+  hlookup (apply_rule e h0 h r) k =
   fold_left vop_apply (vops_for (subst_of e h0) [r] k) (hlookup h k).
 Proof.
   destruct r as [f vals]. unfold vops_for. simpl flat_map. rewrite app_nil_r.
-  unfold apply_rule. simpl live_of.
+  unfold apply_rule.
   destruct f as [|c name].
   - apply (set_rule_lookup (subst_of e h0) [] vals h k).
   - destruct (c =? PLUS) eqn:Ep.
@@ -361,7 +380,7 @@ Lemma vops_for_cons sub (r : rule) rs k : vops_for sub (r :: rs) k = vops_for su
 Proof. unfold vops_for. simpl. rewrite app_nil_r. reflexivity. Qed.
 
 Lemma rules_lookup e h0 rules h k :
-  hlookup (fold_left (apply_rule e (Some h0)) rules h) k =
+  hlookup (fold_left (apply_rule e h0) rules h) k =
   fold_left vop_apply (vops_for (subst_of e h0) rules k) (hlookup h k).
 Proof.
   revert h. induction rules as [|r rs IH]; intros h; [reflexivity|].
@@ -370,7 +389,7 @@ Qed.
 
 Lemma rerule_fold_lookup e h0 f pts h k :
   hlookup (fold_left (fun h pt =>
-               let x := replace_ph (subst_of e (live_of (Some h0) h)) (snd pt) in
+               let x := replace_ph (subst_of e h0) (snd pt) in
                let orig := hget h f in
                if negb (is_nil x) && negb (is_nil orig) then hset h f (replace_all (fst pt) x orig) else h)
             pts h) k =
@@ -380,7 +399,7 @@ Lemma rerule_fold_lookup e h0 f pts h k :
 Proof.
   revert h. induction pts as [|pt pts IH]; intros h.
   - simpl. destruct (beq (canon_key f) k); reflexivity.
-  - simpl fold_left at 1. rewrite IH. simpl live_of.
+  - simpl fold_left at 1. rewrite IH.
     destruct (beq (canon_key f) k) eqn:E.
     + simpl map. simpl fold_left at 2. f_equal.
       apply beq_eq in E. unfold hget. rewrite E.
@@ -394,7 +413,7 @@ Proof.
 Qed.
 
 Lemma apply_rerule_lookup e h0 h (r : rerule) k :
-  hlookup (apply_rerule e (Some h0) h r) k =
+  hlookup (apply_rerule e h0 h r) k =
   fold_left vop_apply (revops_for (subst_of e h0) [r] k) (hlookup h k).
 Proof.
   unfold apply_rerule, revops_for. simpl flat_map. rewrite app_nil_r.
@@ -402,7 +421,7 @@ Proof.
 Qed.
 
 Lemma rerules_lookup e h0 res h k :
-  hlookup (fold_left (apply_rerule e (Some h0)) res h) k =
+  hlookup (fold_left (apply_rerule e h0) res h) k =
   fold_left vop_apply (revops_for (subst_of e h0) res k) (hlookup h k).
 Proof.
   revert h. induction res as [|r rs IH]; intros h; [reflexivity|].
@@ -413,7 +432,7 @@ Qed.
 (* exactly the configured changes: the value of every header after mutateHeadersByRules is the
    value before, transformed by the operations of the rules that target it, in table order *)
 Lemma mutate_headers_lookup e h0 rules res h k :
-  hlookup (mutate_headers e (Some h0) rules res h) k =
+  hlookup (mutate_headers e h0 rules res h) k =
   fold_left vop_apply (vops_for (subst_of e h0) rules k ++ revops_for (subst_of e h0) res k) (hlookup h k).
 Proof. unfold mutate_headers. rewrite rerules_lookup, rules_lookup, fold_left_app. reflexivity. Qed.
 
@@ -430,7 +449,7 @@ Qed.
 Lemma mutate_headers_untouched e h0 rules res h k :
   (forall r, In r rules -> rule_target (fst r) <> k) ->
   (forall r, In r res -> canon_key (fst r) <> k) ->
-  hlookup (mutate_headers e (Some h0) rules res h) k = hlookup h k.
+  hlookup (mutate_headers e h0 rules res h) k = hlookup h k.
 Proof.
   intros H1 H2. rewrite mutate_headers_lookup.
   assert (E1 : vops_for (subst_of e h0) rules k = []).
@@ -449,9 +468,9 @@ Qed.
 Lemma resp_strip_lookup h k :
   hlookup (resp_strip h) k =
   if existsb (fun t => beq (canon_key t) k) gen_hop_headers then None
-  else if existsb (fun t => beq (canon_key t) k) (first_conn_tokens h) then None
+  else if existsb (fun t => beq (canon_key t) k) (all_conn_tokens h) then None
   else hlookup h k.
-Proof. unfold resp_strip. rewrite !hlookup_fold_hdel. reflexivity. Qed.
+Proof. unfold resp_strip. rewrite !hlookup_fold_hdel, listed_conn_tokens_all. reflexivity. Qed.
 
 Lemma resp_hop_removed h k : In k gen_hop_headers -> hlookup (resp_strip h) k = None.
 Proof.
@@ -462,23 +481,23 @@ Proof.
 Qed.
 
 Lemma resp_conn_listed_removed h tok :
-  In tok (first_conn_tokens h) -> hlookup (resp_strip h) (canon_key tok) = None.
+  In tok (all_conn_tokens h) -> hlookup (resp_strip h) (canon_key tok) = None.
 Proof.
   intros H. rewrite resp_strip_lookup. destruct (existsb _ gen_hop_headers); [reflexivity|].
-  assert (E : existsb (fun t => beq (canon_key t) (canon_key tok)) (first_conn_tokens h) = true).
+  assert (E : existsb (fun t => beq (canon_key t) (canon_key tok)) (all_conn_tokens h) = true).
   { apply existsb_exists. exists tok. split; [exact H|apply beq_refl]. }
   rewrite E. reflexivity.
 Qed.
 
 Lemma resp_e2e_preserved h k :
-  ~ In k gen_hop_headers -> (forall tok, In tok (first_conn_tokens h) -> canon_key tok <> k) ->
+  ~ In k gen_hop_headers -> (forall tok, In tok (all_conn_tokens h) -> canon_key tok <> k) ->
   hlookup (resp_strip h) k = hlookup h k.
 Proof.
   intros H1 H2. rewrite resp_strip_lookup.
   destruct (existsb _ gen_hop_headers) eqn:E1.
   - apply existsb_exists in E1. destruct E1 as [t [Ht Et]]. apply beq_eq in Et.
     exfalso. apply H1. rewrite <- Et, (gen_hop_canon t Ht). exact Ht.
-  - destruct (existsb _ (first_conn_tokens h)) eqn:E2; [|reflexivity].
+  - destruct (existsb _ (all_conn_tokens h)) eqn:E2; [|reflexivity].
     apply existsb_exists in E2. destruct E2 as [t [Ht Et]]. apply beq_eq in Et.
     exfalso. exact (H2 t Ht Et).
 Qed.
@@ -530,7 +549,7 @@ Proof. reflexivity. Qed.
 Lemma client_view_trailers c e live pre b : v_trailers (client_view c e live pre b) = final_trailers b.
 Proof. reflexivity. Qed.
 
-(* ---------- one attempt of the retry loop (header map was copied: placeholders read the client's headers) ---------- *)
+(* ---------- one attempt of the retry loop (placeholders read a header map [h0] the rules do not touch) ---------- *)
 Definition auth_hdr (t : target) (h : hdr) : hdr :=
   match t_auth t with
   | Some a => if is_nil (hget h K_AUTHZ) then hset h K_AUTHZ a else h
@@ -538,7 +557,7 @@ Definition auth_hdr (t : target) (h : hdr) : hdr :=
   end.
 
 Lemma attempt_spec c e h0 st t :
-  let o := snd (attempt c e h0 true st t) in
+  let o := snd (attempt c e h0 st t) in
   (forall k, hlookup (o_hdr o) k =
              fold_left vop_apply (vops_for (subst_of e h0) (c_up c) k ++ revops_for (subst_of e h0) (c_upre c) k)
                        (hlookup (auth_hdr t (s_hdr st)) k)) /\
@@ -553,33 +572,101 @@ Proof.
   - reflexivity.
 Qed.
 
+(* ---------- retries: every attempt starts from the request createUpstreamRequest produced ---------- *)
+Lemma attempts_fresh c e h0 st0 ts : forall st i t,
+  nth_error ts i = Some t ->
+  nth_error (fst (attempts c e h0 true st0 st ts)) i = Some (snd (attempt c e h0 st0 t)).
+Proof.
+  induction ts as [|t0 ts IH]; intros st i t H; [destruct i; discriminate|].
+  cbn [attempts]. destruct (attempt c e h0 st0 t0) as [st' o] eqn:Ea.
+  destruct (attempts c e h0 true st0 st' ts) as [os stf] eqn:Er. cbn [fst].
+  destruct i as [|i]; cbn [nth_error] in *.
+  - injection H as <-. rewrite Ea. reflexivity.
+  - specialize (IH st' i t H). rewrite Er in IH. exact IH.
+Qed.
+
+Lemma attempts_length c e h0 retriable st0 ts : forall st,
+  length (fst (attempts c e h0 retriable st0 st ts)) = length ts.
+Proof.
+  induction ts as [|t0 ts IH]; intros st; [reflexivity|]. cbn [attempts].
+  destruct (attempt c e h0 (if retriable then st0 else st) t0) as [st' o].
+  specialize (IH st'). destruct (attempts c e h0 retriable st0 st' ts) as [os stf]. cbn [fst length] in *. rewrite IH. reflexivity.
+Qed.
+
+(* the FIRST attempt, with or without retries: placeholders read the client's own header map *)
+Lemma first_attempt_spec c retriable q t ts :
+  exists o os, fst (run_request c retriable q (t :: ts)) = o :: os /\
+    u_path (o_url o) = spec_path t (c_without c) (u_path (q_url q)) /\
+    u_query (o_url o) = spec_query t (u_query (q_url q)) /\
+    o_urlhost o = t_host t /\
+    (forall k, hlookup (o_hdr o) k =
+               fold_left vop_apply (vops_for (subst_of (env_of q) (q_hdr q)) (c_up c) k ++
+                                    revops_for (subst_of (env_of q) (q_hdr q)) (c_upre c) k)
+                         (hlookup (auth_hdr t (create_upstream_headers (q_remote q) (q_hdr q))) k)).
+Proof.
+  unfold run_request. cbn [attempts].
+  assert (E : (if retriable then init_state q else init_state q) = init_state q) by (destruct retriable; reflexivity).
+  rewrite E. destruct (attempt c (env_of q) (q_hdr q) (init_state q) t) as [st' o] eqn:Ea.
+  destruct (attempts c (env_of q) (q_hdr q) retriable (init_state q) st' ts) as [os stf].
+  exists o, os. split; [reflexivity|].
+  pose proof (attempt_spec c (env_of q) (q_hdr q) (init_state q) t) as S. rewrite Ea in S. simpl in S.
+  destruct S as [S1 [S2 [S3 S4]]]. split; [exact S2|]. split; [exact S3|]. split; [exact S4|exact S1].
+Qed.
+
+(* EVERY attempt (first or retry) to target t: path/query per the director applied ONCE to the client's
+   URL, headers = (stripped headers + that upstream's credentials) transformed ONCE by the rules *)
+Lemma retry_every_attempt_spec c q ts i t :
+  nth_error ts i = Some t ->
+  exists o, nth_error (fst (run_request c true q ts)) i = Some o /\
+    u_path (o_url o) = spec_path t (c_without c) (u_path (q_url q)) /\
+    u_query (o_url o) = spec_query t (u_query (q_url q)) /\
+    o_urlhost o = t_host t /\
+    (forall k, hlookup (o_hdr o) k =
+               fold_left vop_apply (vops_for (subst_of (env_of q) (q_hdr q)) (c_up c) k ++
+                                    revops_for (subst_of (env_of q) (q_hdr q)) (c_upre c) k)
+                         (hlookup (auth_hdr t (create_upstream_headers (q_remote q) (q_hdr q))) k)).
+Proof.
+  intros H. unfold run_request.
+  exists (snd (attempt c (env_of q) (q_hdr q) (init_state q) t)).
+  split; [apply attempts_fresh; exact H|].
+  pose proof (attempt_spec c (env_of q) (q_hdr q) (init_state q) t) as S. simpl in S.
+  destruct S as [S1 [S2 [S3 S4]]]. split; [exact S2|]. split; [exact S3|]. split; [exact S4|exact S1].
+Qed.
+
 (* ---------- the hop-by-hop table covers the RFC list ---------- *)
 Lemma spec_hop_covered : forallb (fun k => mem k gen_hop_headers) spec_hop = true.
 Proof. vm_compute. reflexivity. Qed.
 
 (* ---------- refutations (witnesses) ---------- *)
 Definition wit_h1 : hdr := [(bs "Proxy-Authorization"%string, [[]; bs "Basic abc"%string])].
-Lemma hop_empty_first_value_refuted :
-  exists h remote k, In k gen_hop_headers /\ hlookup h k <> None /\
-                     hlookup (create_upstream_headers remote h) k = hlookup h k.
-Proof.
-  exists wit_h1, (bs "192.0.2.7:4711"%string), (bs "Proxy-Authorization"%string).
-  split; [vm_compute; tauto|]. split; [vm_compute; discriminate|vm_compute; reflexivity].
-Qed.
+(* the witness of the former finding F-C04-2 (hop-by-hop header whose first value is empty): removed now *)
+Lemma hop_empty_first_value_removed :
+  In (bs "Proxy-Authorization"%string) gen_hop_headers /\
+  hlookup wit_h1 (bs "Proxy-Authorization"%string) = Some [[]; bs "Basic abc"%string] /\
+  hlookup (create_upstream_headers (bs "192.0.2.7:4711"%string) wit_h1) (bs "Proxy-Authorization"%string) = None.
+Proof. vm_compute. tauto. Qed.
 
 Definition wit_h2 : hdr := [(K_CONNECTION, [bs "close"%string; bs "X-Secret"%string]); (bs "X-Secret"%string, [bs "v1"%string])].
-Lemma second_connection_line_refuted :
-  exists h remote tok, In tok (all_conn_tokens h) /\
-                       hlookup (create_upstream_headers remote h) (canon_key tok) = Some [bs "v1"%string].
-Proof.
-  exists wit_h2, (bs "192.0.2.7:4711"%string), (bs "X-Secret"%string).
-  split; [vm_compute; tauto|vm_compute; reflexivity].
-Qed.
+(* the witness of the former finding F-C04-1 (a header named in a second Connection line): removed now *)
+Lemma second_connection_line_removed :
+  In (bs "X-Secret"%string) (all_conn_tokens wit_h2) /\ hlookup wit_h2 (bs "X-Secret"%string) = Some [bs "v1"%string] /\
+  hlookup (create_upstream_headers (bs "192.0.2.7:4711"%string) wit_h2) (bs "X-Secret"%string) = None.
+Proof. vm_compute. tauto. Qed.
 
-Lemma response_second_connection_line_refuted :
-  exists h tok, In tok (all_conn_tokens h) /\ hlookup (resp_strip h) (canon_key tok) = Some [bs "v1"%string].
+(* the witness of the former finding F-C04-3 (response header named in a second Connection line): removed now *)
+Lemma response_second_connection_line_removed :
+  In (bs "X-Secret"%string) (all_conn_tokens wit_h2) /\ hlookup wit_h2 (bs "X-Secret"%string) = Some [bs "v1"%string] /\
+  hlookup (resp_strip wit_h2) (bs "X-Secret"%string) = None.
+Proof. vm_compute. tauto. Qed.
+
+(* in the spec's own terms: no hop-by-hop header of the backend response (RFC list or named in any
+   Connection line) survives *)
+Lemma resp_is_hop_for_removed h k : is_hop_for h k = true -> hlookup (resp_strip h) k = None.
 Proof.
-  exists wit_h2, (bs "X-Secret"%string). split; [vm_compute; tauto|vm_compute; reflexivity].
+  intros E. unfold is_hop_for in E. apply orb_true_iff in E. destruct E as [E|E].
+  - apply resp_hop_removed. apply spec_hop_in_gen. exact E.
+  - apply existsb_exists in E. destruct E as [tok [HIn E]]. apply beq_eq in E. subst k.
+    apply resp_conn_listed_removed. exact HIn.
 Qed.
 
 Definition wit_t : target := {| t_host := bs "h0.test"%string; t_path := bs "/base"%string; t_rawpath := []; t_query := bs "tq=1"%string; t_auth := None |}.
@@ -588,31 +675,29 @@ Definition wit_q : request :=
      q_url := {| u_path := bs "/x"%string; u_rawpath := []; u_query := bs "a=b"%string |}; q_hdr := [(K_XFF, [bs "1.1.1.1"%string])] |}.
 Definition wit_c : pcfg := parse_cfg [DUp (bs "+X-A"%string) (bs "lit"%string)].
 
-(* retry: the second attempt is rewritten again (path, query and +rules applied twice) *)
-Lemma retry_rewrite_refuted :
-  exists c q t o1 o2, fst (run_request c q [t; t]) = [o1; o2] /\
-    u_path (o_url o1) = spec_path t (c_without c) (u_path (q_url q)) /\
-    u_path (o_url o2) = bs "/base/base/x"%string /\ u_query (o_url o2) = bs "tq=1&tq=1&a=b"%string /\
-    hlookup (o_hdr o1) (bs "X-A"%string) = Some [bs "lit"%string] /\
-    hlookup (o_hdr o2) (bs "X-A"%string) = Some [bs "lit"%string; bs "lit"%string].
+(* the witness of the former finding F-C04-4 (retry): the second attempt is NOT rewritten again *)
+Lemma retry_rewrite_once :
+  exists o1 o2, fst (run_request wit_c true wit_q [wit_t; wit_t]) = [o1; o2] /\
+    u_path (o_url o2) = bs "/base/x"%string /\ u_query (o_url o2) = bs "tq=1&a=b"%string /\
+    hlookup (o_hdr o2) (bs "X-A"%string) = Some [bs "lit"%string] /\ o2 = o1.
 Proof.
-  exists wit_c, wit_q, wit_t.
   eexists. eexists. split; [vm_compute; reflexivity|].
   repeat split; vm_compute; reflexivity.
 Qed.
 
-(* aliasing: with no hop-by-hop header in the request, {>X-Forwarded-For} reads the value the proxy
-   itself just wrote; with one (the map is copied) it reads what the client sent *)
-Lemma placeholder_alias_refuted :
-  exists c q q' t o o',
-    q_hdr q' = q_hdr q ++ [(K_CONNECTION, [bs "keep-alive"%string])] /\
-    fst (run_request c q [t]) = [o] /\ fst (run_request c q' [t]) = [o'] /\
-    hlookup (o_hdr o) (bs "X-New"%string) = Some [bs "1.1.1.1, 192.0.2.7"%string] /\
-    hlookup (o_hdr o') (bs "X-New"%string) = Some [bs "1.1.1.1"%string].
+(* the witness of the former finding F-C04-5 (header-map aliasing): {>X-Forwarded-For} reads what the
+   client sent whether or not the client also sent `Connection: keep-alive` *)
+Definition wit_q' : request :=
+  {| q_method := q_method wit_q; q_host := q_host wit_q; q_remote := q_remote wit_q; q_url := q_url wit_q;
+     q_hdr := q_hdr wit_q ++ [(K_CONNECTION, [bs "keep-alive"%string])] |}.
+Definition wit_c5 : pcfg := parse_cfg [DUp (bs "X-New"%string) (bs "{>X-Forwarded-For}"%string)].
+Lemma placeholder_reads_client_headers :
+  exists o o',
+    fst (run_request wit_c5 false wit_q [wit_t]) = [o] /\ fst (run_request wit_c5 false wit_q' [wit_t]) = [o'] /\
+    hlookup (o_hdr o) (bs "X-New"%string) = Some [bs "1.1.1.1"%string] /\
+    hlookup (o_hdr o') (bs "X-New"%string) = Some [bs "1.1.1.1"%string] /\
+    hlookup (o_hdr o) K_XFF = Some [bs "1.1.1.1, 192.0.2.7"%string].
 Proof.
-  exists (parse_cfg [DUp (bs "X-New"%string) (bs "{>X-Forwarded-For}"%string)]), wit_q,
-    {| q_method := q_method wit_q; q_host := q_host wit_q; q_remote := q_remote wit_q; q_url := q_url wit_q;
-       q_hdr := q_hdr wit_q ++ [(K_CONNECTION, [bs "keep-alive"%string])] |}, wit_t.
-  eexists. eexists. split; [reflexivity|]. split; [vm_compute; reflexivity|]. split; [vm_compute; reflexivity|].
-  split; vm_compute; reflexivity.
+  eexists. eexists. split; [vm_compute; reflexivity|]. split; [vm_compute; reflexivity|].
+  repeat split; vm_compute; reflexivity.
 Qed.
